@@ -197,13 +197,8 @@ def parseVModel (value : Node) (isComponent : Bool) (argument : Option Node) (re
   (.vmodel argument transformed (modifiers.bind (transformModifiers · isComponent)) value, st)
 
 def parseVSlots (value : Node) : Dir :=
-  match containerExpr value with
-  | some e =>
-    match e with
-    | .mk .ident _ _ => .slots (some e)
-    | .mk .object _ _ => .slots (some e)
-    | _ => .slots none
-  | none => .slots none
+  -- any expression is a slots object (an object literal's entries are inlined later, everything else is spread)
+  .slots (containerExpr value)
 
 /-- `parse_directive(jsx_attr, is_component)`; `name`/`value` are the attribute's name and value nodes -/
 def parseDirective (name : AttrName) (value : Node) (isComponent : Bool) (st : St) : Dir × St :=
